@@ -100,7 +100,12 @@ def oracle(case: dict, recs: list[dict]) -> list[Failure]:
             # `re`: what a Pause body that ran while already paused would have captured instead (the safe
             # values, or the outputs at that later moment) - only used to name the failure
             safe_now = [SAFES[j] if SAFES[j] is not None else a["outs"][j] for j in range(len(SAFES))]
-            if op[0] != "tick":
+            if a["run_id"] != b["run_id"]:
+                # the run changed in this very tick (Start / a whole Restart): what the outputs were when the
+                # pause began inside the tick is not visible at the operation boundary
+                period = {"kind": "ambiguous"}
+                unresolved = 0
+            elif op[0] != "tick":
                 # an error between ticks began the pause; Pause requests still queued run in a later tick
                 period = {"kind": "cmd" if unresolved else "error", "expected": list(a["outs"]), "re": []}
             elif unresolved >= 1:
